@@ -136,6 +136,24 @@ let () =
        | _ -> "tree_ok=0 unparsable-table")
     | _ -> failwith "huffm")
 
+(* ---------------- C19 ---------------- *)
+let () =
+  reg "rw" (fun a -> match a with
+    | [ty; de; mode; vals] ->
+      let ty = int_of_string ("0x" ^ ty) and de = z_of_hex de and mode = int_of_string ("0x" ^ mode) in
+      let l = zlist_of_string vals in
+      let w = nat_of_int (match ty with 0 -> 4 | 1 -> 8 | 2 | 3 -> 1 | 4 | 5 -> 2 | 6 | 7 -> 4 | _ -> 8) in
+      let fp = ty < 2 in
+      if mode = 2 then
+        (match read_file w Z0 de None with None -> "st_r=-2 null=1" | Some _ -> "st_r=0 null=0")
+      else begin
+        let file, rde = if mode = 0 then (write_file fp w Z0 de l, de) else (swapped_file w l, z_of_int 1) in
+        match read_file w Z0 rde (Some file) with
+        | Some r -> Printf.sprintf "st_w=0 st_r=0 n=%x vals=%s file=%s" (List.length r) (sl r) (sl file)
+        | None -> "st_r=-2"
+      end
+    | _ -> failwith "rw")
+
 let () =
   (try
     while true do
